@@ -16,7 +16,7 @@
                      table: g_taskStack, staged, topush; tlBuffers is C41's).
 """
 import re
-from lib import typestate
+from lib import extract, typestate
 from lib.facts import Pos, const_val, expr_str, is_call, strip_casts, strip_move, subexprs
 from lib.rules import comparison_of, local_defs, single_def_value
 
@@ -161,7 +161,7 @@ def run(R):
     n = 0
     TABLE = {"g_taskStack": 64, "staged": None, "topush": None}
     for fn in F.fns:
-        if not fn.ploc.startswith("/repo/dispenso"):
+        if not fn.ploc.startswith(extract.REPO + "/dispenso"):
             continue
         for pos, ev in fn.events():
             if ev.get("k") == "bin" and ev.get("op") == "=" or (ev.get("k") == "call" and ev.get("opcall") == "="):
